@@ -918,19 +918,34 @@ func setDesc(set [256]bool) string {
 }
 
 // boolPredicatesCalledBy: one-byte bool predicates of the module called from f.
-func boolPredicatesCalledBy(f *ssa.Function) []*ssa.Function {
+// The search goes through module helpers f delegates to, but not into the functions in stopAt.
+func boolPredicatesCalledBy(f *ssa.Function, stopAt ...*ssa.Function) []*ssa.Function {
 	var out []*ssa.Function
-	seen := map[*ssa.Function]bool{}
-	for _, ci := range core.Calls(f) {
-		g := ci.Common().StaticCallee()
-		if g == nil || !core.InMod(g) || seen[g] || len(g.Params) != 1 || g.Signature.Results().Len() != 1 {
-			continue
+	seen := map[*ssa.Function]bool{f: true}
+	for _, x := range stopAt {
+		if x != f {
+			seen[x] = true
 		}
-		pb, ok1 := g.Params[0].Type().Underlying().(*types.Basic)
-		rb, ok2 := g.Signature.Results().At(0).Type().Underlying().(*types.Basic)
-		if ok1 && ok2 && pb.Kind() == types.Uint8 && rb.Kind() == types.Bool {
+	}
+	work := []*ssa.Function{f}
+	for len(work) > 0 {
+		cur := work[0]
+		work = work[1:]
+		for _, ci := range core.Calls(cur) {
+			g := ci.Common().StaticCallee()
+			if g == nil || !core.InMod(g) || seen[g] || g.Blocks == nil {
+				continue
+			}
 			seen[g] = true
-			out = append(out, g)
+			if len(g.Params) == 1 && g.Signature.Results().Len() == 1 {
+				pb, ok1 := g.Params[0].Type().Underlying().(*types.Basic)
+				rb, ok2 := g.Signature.Results().At(0).Type().Underlying().(*types.Basic)
+				if ok1 && ok2 && pb.Kind() == types.Uint8 && rb.Kind() == types.Bool {
+					out = append(out, g)
+					continue
+				}
+			}
+			work = append(work, g)
 		}
 	}
 	return out
@@ -960,7 +975,7 @@ var ruleLexTables = &core.Rule{ID: "R09.5", Min: 6,
 				s.Bad(name, c.Pos(g.Pos()), "scanner for "+what+" not found from the value dispatch")
 				return
 			}
-			ps := boolPredicatesCalledBy(f)
+			ps := boolPredicatesCalledBy(f, g, strFn, numFn, spaceFn)
 			if len(ps) == 0 {
 				s.Und(name, c.Pos(f.Pos()), "no byte predicate called by "+f.Name()+" (inline tests are not tabulated by this rule)")
 				return
@@ -989,95 +1004,194 @@ var ruleLexTables = &core.Rule{ID: "R09.5", Min: 6,
 		if strFn == nil {
 			return
 		}
-		f := strFn
-		hdrs := map[*ssa.BasicBlock]bool{}
-		for _, b := range f.Blocks {
-			for _, p := range b.Preds {
-				if b.Dominates(p) {
-					hdrs[b] = true
+		// the string scanner unit: the scanner and the family helpers it delegates to (escape scanner, ...)
+		unit := []*ssa.Function{strFn}
+		inUnit := map[*ssa.Function]bool{strFn: true}
+		callSite := map[*ssa.Function]*ssa.Call{}
+		for i := 0; i < len(unit); i++ {
+			for _, ci := range core.Calls(unit[i]) {
+				call, ok := ci.(*ssa.Call)
+				if !ok {
+					continue
+				}
+				if h := call.Call.StaticCallee(); h != nil && m.fam[h] && !inUnit[h] && h != g && intParamIndex(h) < 0 && byteParam(h) != nil {
+					inUnit[h] = true
+					unit = append(unit, h)
+					callSite[h] = call
 				}
 			}
+		}
+		hdrs := map[*ssa.BasicBlock]bool{}
+		for _, f := range unit {
+			for _, b := range f.Blocks {
+				for _, p := range b.Preds {
+					if b.Dominates(p) {
+						hdrs[b] = true
+					}
+				}
+			}
+		}
+		callsUnit := func(blk *ssa.BasicBlock) bool {
+			for _, x := range blk.Instrs {
+				if call, ok := x.(*ssa.Call); ok {
+					if h := call.Call.StaticCallee(); h != nil && inUnit[h] {
+						return true
+					}
+				}
+			}
+			return false
+		}
+		// what a helper's success return means in its caller: evaluated on the caller's continuation
+		var retKind func(h *ssa.Function, depth int) (string, error)
+		classify := func(f *ssa.Function, b *ssa.BasicBlock, exits []fde.Exit, depth int) (string, error) {
+			kind := ""
+			for _, x := range exits {
+				k := "other"
+				switch {
+				case x.Ret != nil && core.IsConstInt(x.Ret.Results[0], 0):
+					k = "fail"
+				case x.Ret != nil && f != strFn:
+					rk, err := retKind(f, depth+1)
+					if err != nil {
+						return "", err
+					}
+					k = rk
+				case x.Ret != nil:
+					k = "close"
+				case x.Stop != nil && hdrs[x.Stop] && (x.Stop == b || x.Stop.Dominates(b)):
+					k = "loop" // back to a loop this test sits in
+				case x.Stop != nil:
+					k = "on" // next byte test, a delegated scanner, or entry of an inner loop
+				}
+				// an end-of-input test right after the byte may lead to a failure as well as on: keep the non-failure kind
+				if kind == "" || kind == "fail" {
+					kind = k
+				} else if k != "fail" && kind != k {
+					kind = "mixed"
+				}
+			}
+			return kind, nil
+		}
+		retKind = func(h *ssa.Function, depth int) (string, error) {
+			call := callSite[h]
+			if call == nil || depth > 3 {
+				return "", fmt.Errorf("no call site for %s", h.Name())
+			}
+			caller := call.Parent()
+			ev := newEval(c)
+			ev.Env = fde.Env{call: constant.MakeInt64(1)}
+			exits, err := ev.Walk(call.Block(), nil, func(blk *ssa.BasicBlock) bool { return hdrs[blk] }, 2)
+			if err != nil {
+				return "", err
+			}
+			// a zero result must fail in the caller
+			ev0 := newEval(c)
+			ev0.Env = fde.Env{call: constant.MakeInt64(0)}
+			ex0, err := ev0.Walk(call.Block(), nil, func(blk *ssa.BasicBlock) bool { return hdrs[blk] }, 0)
+			if err != nil {
+				return "", err
+			}
+			for _, x := range ex0 {
+				if x.Ret == nil || !core.IsConstInt(x.Ret.Results[0], 0) {
+					return "", fmt.Errorf("a failure of %s is not a failure of %s", h.Name(), caller.Name())
+				}
+			}
+			return classify(caller, call.Block(), exits, depth)
 		}
 		var descs []string
 		n := 0
-		for _, b := range f.Blocks {
-			for _, in := range b.Instrs {
-				u, ok := in.(*ssa.UnOp)
-				if !ok || u.Op != token.MUL {
-					continue
-				}
-				ia, ok := u.X.(*ssa.IndexAddr)
-				if !ok || ia.X != ssa.Value(f.Params[1]) {
-					continue
-				}
-				n++
-				tab := map[string][]int{}
-				var undec error
-				for v := 0; v < 256; v++ {
-					ev := newEval(c)
-					ev.Env = fde.Env{u: constant.MakeInt64(int64(v))}
-					exits, err := ev.Walk(b, nil, func(blk *ssa.BasicBlock) bool {
-						if hdrs[blk] {
-							return true
-						}
-						if blk != b {
-							for _, x := range blk.Instrs {
-								if u2, ok := x.(*ssa.UnOp); ok && u2 != u && u2.Op == token.MUL {
-									if ia2, ok := u2.X.(*ssa.IndexAddr); ok && ia2.X == ssa.Value(f.Params[1]) {
-										return true
+		for _, f := range unit {
+			bp := byteParam(f)
+			for _, b := range f.Blocks {
+				for _, in := range b.Instrs {
+					u, ok := in.(*ssa.UnOp)
+					if !ok || u.Op != token.MUL {
+						continue
+					}
+					ia, ok := u.X.(*ssa.IndexAddr)
+					if !ok || ia.X != ssa.Value(bp) {
+						continue
+					}
+					n++
+					tab := map[string][]int{}
+					var undec error
+					for v := 0; v < 256; v++ {
+						ev := newEval(c)
+						ev.Env = fde.Env{u: constant.MakeInt64(int64(v))}
+						exits, err := ev.Walk(b, nil, func(blk *ssa.BasicBlock) bool {
+							if hdrs[blk] {
+								return true
+							}
+							if blk != b {
+								if callsUnit(blk) {
+									return true
+								}
+								for _, x := range blk.Instrs {
+									if u2, ok := x.(*ssa.UnOp); ok && u2 != u && u2.Op == token.MUL {
+										if ia2, ok := u2.X.(*ssa.IndexAddr); ok && ia2.X == ssa.Value(bp) {
+											return true
+										}
 									}
 								}
 							}
+							return false
+						}, 2)
+						if err != nil {
+							undec = err
+							break
 						}
-						return false
-					}, 2)
-					if err != nil {
-						undec = err
-						break
+						kind, err := classify(f, b, exits, 0)
+						if err != nil {
+							undec = err
+							break
+						}
+						tab[kind] = append(tab[kind], v)
 					}
-					kind := ""
-					for _, x := range exits {
-						k := "other"
-						switch {
-						case x.Ret != nil && core.IsConstInt(x.Ret.Results[0], 0):
-							k = "fail"
-						case x.Ret != nil:
-							k = "close"
-						case x.Stop != nil && hdrs[x.Stop] && (x.Stop == b || x.Stop.Dominates(b)):
-							k = "loop" // back to a loop this test sits in
-						case x.Stop != nil:
-							k = "on" // next byte test, or entry of an inner loop
-						}
-						// an end-of-input test right after the byte may lead to a failure as well as on: keep the non-failure kind
-						if kind == "" || kind == "fail" {
-							kind = k
-						} else if k != "fail" && kind != k {
-							kind = "mixed"
-						}
+					key := fmt.Sprintf("%s: byte test #%d", f.Name(), n)
+					if undec != nil {
+						s.Und(key, c.Pos(u.Pos()), undec.Error())
+						continue
 					}
-					tab[kind] = append(tab[kind], v)
+					descs = append(descs, descTab(tab))
 				}
-				key := fmt.Sprintf("%s: byte test #%d", f.Name(), n)
-				if undec != nil {
-					s.Und(key, c.Pos(u.Pos()), undec.Error())
-					continue
-				}
-				descs = append(descs, descTab(tab))
-				_ = key
 			}
 		}
+		f := strFn
 		want := []string{
 			`close:'"' loop:* on:'\\'`,
 			`fail:* loop:'"''/''\\''b''f''n''r''t' on:'u'`,
 			`fail:* loop:'0''1''2''3''4''5''6''7''8''9''A''B''C''D''E''F''a''b''c''d''e''f'`,
 		}
+		names := []string{"string body byte", "escape character", "\\u hex digit"}
+		used := map[int]bool{}
 		for i, w := range want {
 			got := "(missing)"
-			if i < len(descs) {
-				got = descs[i]
+			for j, d := range descs {
+				if d == w && !used[j] {
+					used[j] = true
+					got = d
+					break
+				}
 			}
-			names := []string{"string body byte", "escape character", "\\u hex digit"}
+			if got == "(missing)" {
+				// report the closest unused table
+				for j, d := range descs {
+					if !used[j] && (i >= len(descs) || j == i) {
+						got = d
+					}
+				}
+			}
 			s.Check(got == w, fmt.Sprintf("%s: %s table", f.Name(), names[i]), c.Pos(f.Pos()), got, fmt.Sprintf("byte table is {%s}, RFC 8259 string syntax requires {%s}", got, w))
 		}
 		s.Check(len(descs) == 3, f.Name()+": three byte tests (body, escape, hex)", c.Pos(f.Pos()), fmt.Sprint(len(descs)), fmt.Sprintf("%d byte tests in the string scanner", len(descs)))
 	}}
+
+// byteParam: the []byte parameter a scanner function reads its input from.
+func byteParam(f *ssa.Function) *ssa.Parameter {
+	for _, p := range f.Params {
+		if core.IsByteSlice(p.Type()) {
+			return p
+		}
+	}
+	return nil
+}
